@@ -9,7 +9,9 @@ def _solver(timeout_ms, seed, strat="auto"):
         z3.set_param("smt.auto_config", False)
         z3.set_param("smt.qi.eager_threshold", 100.0)
         z3.set_param("smt.qi.lazy_threshold", 200.0)
+        z3.set_param("smt.array.extensional", False)   # array equalities are only ever used, never proof goals
     else:
+        z3.set_param("smt.array.extensional", True)
         z3.set_param("smt.mbqi", True)
         z3.set_param("smt.auto_config", True)
         z3.set_param("smt.qi.eager_threshold", 10.0)
